@@ -61,6 +61,12 @@ def gz_members(data, cuts, level=6):
     return b''.join(parts)
 
 
+def gz_two_members_named(data, cut, fname_len, level=9):
+    """two members; the first carries an FNAME field of the given length, so its end offset in the file moves"""
+    first = images.gz(data[:cut], level, fname='n' * fname_len) if fname_len else images.gz(data[:cut], level)
+    return first + images.gz(data[cut:], level)
+
+
 def gz_with_name(data, fname_len, level=6):
     """gzip member with an FNAME field of the given length (shifts the compressed stream by fname_len+1 bytes)"""
     if fname_len == 0:
@@ -107,6 +113,8 @@ def w_pair(case):
         how = case.get('gz', {'level': 6})
         if 'cuts' in how:
             z = gz_members(data, how['cuts'], how.get('level', 6))
+        elif 'fname2' in how:
+            z = gz_two_members_named(data, how['cut'], how['fname2'])
         elif 'fname' in how:
             z = gz_with_name(data, how['fname'], how.get('level', 6))
         else:
@@ -273,6 +281,15 @@ def fam_boundary(tier):
                'sig': 'C10:boundary', 'note': 'FNAME length %d' % ln, 'cmds': [['cat'], ['type', '--binary', 'HELLO']]}
 
 
+def fam_member_boundary(tier):
+    """two members: the end of the first member swept over every offset residue mod 512 (and beyond 1x/2x the input buffer)"""
+    rng = range(0, 1100) if tier == 'thorough' else range(0, 520)
+    for ln in rng:
+        yield {'w': 'pair', 'spec': {'ext': 'ssd', 'tracks': 40, 'spt': 10, 'nsec': 14}, 'gz': {'fname2': ln, 'cut': 5 * 256 + 77},
+               'sig': 'C10:member-boundary', 'note': 'first member FNAME length %d' % ln,
+               'cmds': [['cat'], ['type', '--binary', 'HELLO'], ['dump-sector', '0', '1', '3']]}
+
+
 def fam_damage(tier):
     """every truncation length and every single-bit flip of a small .gz; raw/zlib/deflate/gzip-of-gzip named .gz"""
     z0 = images.gz(tiny_image(), 9)
@@ -284,7 +301,8 @@ def fam_damage(tier):
 
 
 FAMILIES = [('L-levels-sizes', fam_levels), ('G-container-geometry', fam_geometry), ('M-members', fam_members),
-            ('B-buffer-boundaries', fam_boundary), ('D-damaged-streams', fam_damage)]
+            ('B-buffer-boundaries', fam_boundary), ('E-member-end-vs-input-buffer', fam_member_boundary),
+            ('D-damaged-streams', fam_damage)]
 
 
 def main(tier, seed):
